@@ -31,7 +31,8 @@ CODES = {
     11: "defaulting is not idempotent",
     12: "the defaulted object is not recognised as defaulted",
     14: "Default left unset a field the reconcilers dereference (the model's list of them)",
-    17: "the implementation accepts (IsDefaulted and Validate) a spec in which a field the reconcilers dereference is unset",
+    17: "the implementation accepts (IsDefaulted and Validate) a spec the model does not: a field the reconcilers dereference is unset, "
+        "or a combination that validation has to reject (manual mode with a duration, thresholds out of order, ...)",
     13: "validation crashed on a defaulted spec",
     15: "the replica-set sync crashed although the parent's spec is defaulted and valid",
     16: "the ExtendedDaemonSet reconcile crashed",
